@@ -34,9 +34,9 @@ func runC17(c *fw.Ctx) {
 	mdl := map[string][]byte{}
 	var root util.Key
 	nver := 1 + r.Intn(4)
-	// every 80th case is a big trie (several hundred nodes): repairs then move more nodes than any batch size in the
+	// every 83rd case is a big trie (several hundred nodes): repairs then move more nodes than any batch size in the
 	// store layer
-	fat := c.Idx%80 == 7
+	fat := c.Idx%83 == 7
 	for v := 1; v <= nver; v++ {
 		m := lab.NewMPT(full, int64(v), root)
 		nops := 2 + r.Intn(6)
@@ -448,7 +448,7 @@ func init() {
 		ID:           "C17",
 		EvalCounters: []string{"removal_sets"},
 		Level:        "exploration",
-		Rule: "each case builds a trie over 1..4 versions (so node origins differ; every 80th case a big one with several hundred nodes and an additional removal set holding every non-root node) and then, for every single reachable non-root node (up to 24; exhaustive for small tries), 3 whole subtrees, 4 scattered subsets and the empty set, " +
+		Rule: "each case builds a trie over 1..4 versions (so node origins differ; every 83rd case a big one with several hundred nodes and an additional removal set holding every non-root node) and then, for every single reachable non-root node (up to 24; exhaustive for small tries), 3 whole subtrees, 4 scattered subsets and the empty set, " +
 			"copies the trie into a store (memory / layered / persistent) without the removed nodes and a donor store with them. A trie opened at a version equal to or above the creating versions must: report HasMissingNodes iff the frontier is non-empty; " +
 			"GetAllMissingNodes == frontier (absent nodes reachable through present ones, computed by the harness); lookups through an absent node fail with ErrNodeNotFound, others return the model value, never-stored paths never return data; partial iteration yields only true pairs; " +
 			"after the repair (MergeDB(donor) through the trie, or for a third of the removal sets the store-level util.MergeState(donor, store)): content complete (also for a fresh trie on the repaired store), root unchanged, HasMissingNodes false, donor snapshot (key->encoding) byte-identical; for a third of the removal sets the repair is repeated through a trie whose cache is warm (it read the complete state before the nodes were deleted from its store) and judged by a fresh trie; for a quarter the repair runs in a child trie whose changes (plus one insert) are then merged into a parent trie of another version, after which the donor snapshot must still be identical; for a quarter the sync runs in a layered trie followed by SaveChanges to the lower store, which a fresh trie must read completely; for a quarter the donor is a layered store whose own trie has moved on since. non-trivial/distinct = (trie, removal set) pairs with a non-empty removal",
